@@ -42,6 +42,7 @@ type (
 		Forall bool
 		Vars   []QVar
 		Body   Expr
+		Trig   Expr // optional instantiation pattern
 	}
 	EOld struct{ X Expr }
 )
@@ -242,6 +243,16 @@ func (p *parser) parseExpr() (Expr, error) {
 			}
 			break
 		}
+		// optional instantiation trigger: forall k int trigger m[k] :: body
+		var trig Expr
+		if p.isID("trigger") {
+			p.pos++
+			t, err := p.parseSum()
+			if err != nil {
+				return nil, err
+			}
+			trig = t
+		}
 		if err := p.expectOp("::"); err != nil {
 			return nil, err
 		}
@@ -249,7 +260,7 @@ func (p *parser) parseExpr() (Expr, error) {
 		if err != nil {
 			return nil, err
 		}
-		return &EQuant{fa, vars, body}, nil
+		return &EQuant{fa, vars, body, trig}, nil
 	}
 	return p.parseImpl()
 }
@@ -559,6 +570,7 @@ type FuncContract struct {
 	NoSweep     map[string]bool
 	NoFrame     bool
 	Nilable     map[string]bool
+	CS          []CSClause
 }
 
 type SpecFun struct {
@@ -575,7 +587,15 @@ type NamedProp struct {
 	Clause
 }
 
+// CSClause: two-state contract of a critical section of the function.
+type CSClause struct {
+	Mutex   string // T.mu
+	Ordinal int    // 0 = every section on that mutex
+	Clause
+}
+
 type Contracts struct {
+	Guards  map[string]*GuardDecl
 	Funcs   map[string]*FuncContract // by ref as written (package-qualified, see Bind)
 	Order   []string
 	SpecFns map[string]*SpecFun
@@ -608,7 +628,7 @@ func (cs *Contracts) isGetter(q, m string) bool {
 }
 
 func NewContracts() *Contracts {
-	return &Contracts{Funcs: map[string]*FuncContract{}, SpecFns: map[string]*SpecFun{}, Ifaces: map[string]*FuncContract{}, IfaceGetters: map[string]bool{}, IfaceGetterMethods: map[string]map[string]bool{}}
+	return &Contracts{Guards: map[string]*GuardDecl{}, Funcs: map[string]*FuncContract{}, SpecFns: map[string]*SpecFun{}, Ifaces: map[string]*FuncContract{}, IfaceGetters: map[string]bool{}, IfaceGetterMethods: map[string]map[string]bool{}}
 }
 
 var clauseKeywords = map[string]bool{
@@ -710,6 +730,36 @@ func (cs *Contracts) LoadFile(path, pkgPath string, specOnly bool) {
 				}
 				cs.AssumeLike = append(cs.AssumeLike, "ifacegetters "+n+" (these methods are stable pure getters)")
 			}
+		case "guards", "lockinv":
+			// guards T.mu: f1, f2      lockinv T.mu: expr (self = the T object)
+			i := strings.Index(rest, ":")
+			if i < 0 {
+				fail(l.line, "%s needs 'T.mu: ...'", kw)
+				continue
+			}
+			tm := strings.TrimSpace(rest[:i])
+			j := strings.LastIndex(tm, ".")
+			if j < 0 {
+				fail(l.line, "%s needs 'T.mu'", kw)
+				continue
+			}
+			key := pkgPath + "." + tm
+			gd := cs.Guards[key]
+			if gd == nil {
+				gd = &GuardDecl{Key: key, Type: tm[:j], Mu: tm[j+1:], Pkg: pkgPath}
+				cs.Guards[key] = gd
+			}
+			if kw == "guards" {
+				for _, fl := range strings.Split(rest[i+1:], ",") {
+					if fl = strings.TrimSpace(fl); fl != "" {
+						gd.Fields = append(gd.Fields, fl)
+					}
+				}
+			} else {
+				if c, ok := mk(strings.TrimSpace(rest[i+1:]), l.line); ok {
+					gd.Inv = append(gd.Inv, c)
+				}
+			}
 		case "ghost":
 			// ghost heap <name> <keysort> <valsort>
 			fs := strings.Fields(rest)
@@ -732,6 +782,9 @@ func (cs *Contracts) LoadFile(path, pkgPath string, specOnly bool) {
 				continue
 			}
 			name := qualifyRef(parts[0], pkgPath)
+			if pkgPath != "" && !strings.Contains(parts[0], "/") && strings.Count(parts[0], ".") == 1 {
+				name = pkgPath + "." + parts[0] // Iface.Method of this package
+			}
 			ic := cs.Ifaces[name]
 			if ic == nil {
 				ic = &FuncContract{Ref: name, Loops: map[string]*LoopSpec{}, File: path, Line: l.line, SpecOnly: true, Trusted: true}
@@ -866,6 +919,21 @@ func (cs *Contracts) LoadFile(path, pkgPath string, specOnly bool) {
 					cur.NoSweep[w] = true
 				}
 				cs.AssumeLike = append(cs.AssumeLike, "nosweep "+cur.Ref+" "+rest)
+			case "cs":
+				// cs T.mu[#k] ensures e   (old(...) = state right after Lock)
+				parts := strings.SplitN(rest, " ", 3)
+				if len(parts) < 3 || parts[1] != "ensures" {
+					fail(l.line, "cs: expected 'cs T.mu[#k] ensures e'")
+					continue
+				}
+				mu, ord := parts[0], 0
+				if i := strings.Index(mu, "#"); i >= 0 {
+					fmt.Sscanf(mu[i+1:], "%d", &ord)
+					mu = mu[:i]
+				}
+				if c, ok := mk(parts[2], l.line); ok {
+					cur.CS = append(cur.CS, CSClause{Mutex: mu, Ordinal: ord, Clause: c})
+				}
 			case "loop":
 				// loop <ref> invariant e | loop <ref> unroll
 				parts := strings.SplitN(rest, " ", 3)
